@@ -328,10 +328,13 @@ def chi_sens(m, P, obs, up):
     def go():
         u = (lambda: None) if up is None else (lambda: np.array(up, float))
         s_r, red = m.compute_sensitivities(P, obs, dlogp_dpsi=u(), reduce=True)
+        # documented: `reduce` is prioritised over `flattened`
+        s_n, red_n = m.compute_sensitivities(P, obs, dlogp_dpsi=u(), reduce=True, flattened=False)
         s_f, dpsi_f, dth_f = m.compute_sensitivities(P, obs, dlogp_dpsi=u())
         s_s, dpsi_s, dth_s = m.compute_sensitivities(P, obs, dlogp_dpsi=u(), flattened=False)
         return {'score': float(s_r), 'score_f': float(s_f), 'score_s': float(s_s),
-                'reduce': np.asarray(red, float), 'dpsi': np.asarray(dpsi_f, float),
+                'reduce': np.asarray(red, float), 'reduce_nf': np.asarray(red_n, float), 'score_n': float(s_n),
+                'dpsi': np.asarray(dpsi_f, float),
                 'dpsi_s': np.asarray(dpsi_s, float), 'flat': np.asarray(dth_f, float),
                 'sep': np.asarray(dth_s, float)}
     return chi_call(go)
@@ -496,6 +499,10 @@ def run_elementary(ctx, chi, c):
                      and core.close(s0['score_f'], v['flat']) and core.close(s0['score_s'], v['flat']),
                      inp, {'sens': s0['score'], 'll': v['flat']})
         # lengths vs the reported counts — for every input, also next to a -inf score
+        spec(ctx, 'C05.forms_reduce_prioritised/' + cls,
+             s0['reduce_nf'].shape == s0['reduce'].shape and same(s0['score_n'], s0['score'])
+             and (not finite or core.close(s0['reduce_nf'], s0['reduce'])),
+             inp, {'reduce=True': s0['reduce'], 'reduce=True, flattened=False': s0['reduce_nf']})
         spec(ctx, 'C05.forms_len/' + cls,
                  len(s0['reduce']) == nb + nt and len(s0['flat']) == npar
                  and s0['dpsi'].shape == (n_ids, n_dim)
@@ -717,6 +724,17 @@ def run_composed(ctx, chi, c):
         s, ds = cm.compute_sensitivities(params, obs, dlogp_dpsi=u, reduce=True, **kw)
         return float(s), np.asarray(ds, float)
     cr = chi_call(red)
+
+    def red_nf():
+        u = None if up is None else up.copy()
+        s, ds = cm.compute_sensitivities(params, obs, dlogp_dpsi=u, reduce=True, flattened=False, **kw)
+        return float(s), np.asarray(ds, float)
+    if not isinstance(cr, str):
+        cn = chi_call(red_nf)
+        spec(ctx, 'C05.forms_reduce_prioritised/ComposedPopulationModel',
+             not isinstance(cn, str) and same(cn[0], cr[0]) and cn[1].shape == cr[1].shape
+             and (not math.isfinite(cr[0]) or core.close(cn[1], cr[1])), inp,
+             {'reduce=True': cr, 'reduce=True, flattened=False': cn})
     if isinstance(cs, str) or isinstance(cr, str):
         ctx.agree('C05.composed/sens-raises', 'ok', cs if isinstance(cs, str) else cr, inp)
         spec(ctx, 'C05.additive/sens', False, inp, {'chi': [str(cs)[:80], str(cr)[:80]]})
